@@ -62,3 +62,20 @@ Proof. apply cval_eqb_eq. exact row_eqb_eq. Qed.
 
 Lemma cval_Z_eqb_eq (a b : cval Z) : cval_eqb Z.eqb a b = true -> a = b.
 Proof. apply cval_eqb_eq. intros x y E. apply Z.eqb_eq. exact E. Qed.
+
+(* reflexivity *)
+Lemma option_eqb_refl {A} (eqb : A -> A -> bool) : (forall x, eqb x x = true) -> forall a, option_eqb eqb a a = true.
+Proof. intros H [x|]; cbn; auto. Qed.
+Lemma list_eqb_refl {A} (eqb : A -> A -> bool) : (forall x, eqb x x = true) -> forall a, list_eqb eqb a a = true.
+Proof. intros H a. induction a as [|x a IH]; cbn; auto. rewrite H, IH. reflexivity. Qed.
+Lemma colval_eqb_refl a : colval_eqb a a = true.
+Proof. unfold colval_eqb. rewrite Z.eqb_refl, sval_eqb_refl. reflexivity. Qed.
+Lemma row_eqb_refl a : row_eqb a a = true.
+Proof.
+  unfold row_eqb. rewrite Bool.eqb_reflx, Z.eqb_refl.
+  rewrite (list_eqb_refl _ (option_eqb_refl _ colval_eqb_refl)). reflexivity.
+Qed.
+Lemma cval_eqb_refl {V} (peq : V -> V -> bool) : (forall x, peq x x = true) -> forall a : cval V, cval_eqb peq a a = true.
+Proof. intros H a. unfold cval_eqb. rewrite !Z.eqb_refl, (option_eqb_refl _ H). reflexivity. Qed.
+Lemma cval_row_eqb_refl (a : cval row) : cval_eqb row_eqb a a = true.
+Proof. apply cval_eqb_refl. exact row_eqb_refl. Qed.
